@@ -13,7 +13,7 @@ def main():
         return 0
     out = os.path.join(VERIF, ".work", "gen.new")
     os.makedirs(out, exist_ok=True)
-    p = subprocess.run(["go", "run", ".", "-repo", "/repo/luahelper-lsp", "-out", out], cwd=src, env=ENV,
+    p = subprocess.run(["go", "run", ".", "-repo", os.environ.get("VERIF_REPO", "/repo") + "/luahelper-lsp", "-out", out], cwd=src, env=ENV,
                        stdout=subprocess.PIPE, stderr=subprocess.STDOUT, text=True)
     sys.stdout.write(p.stdout)
     if p.returncode != 0:
